@@ -558,7 +558,11 @@ func (st *StateDB) createObject(addr common.Address) (newobj, prev *stateObject)
 	}
 
 	st.setStateObject(newobj)
-	return newobj, prev
+	if prev != nil && !prev.deleted {
+		return newobj, prev
+	}
+	// a deleted (self-destructed and finalised) object has nothing to carry over
+	return newobj, nil
 }
 
 // CreateAccount explicitly creates a state object. If a state object with the address
